@@ -830,8 +830,10 @@ def identify(ctx, x, constants=[], tol=None, maxcoeff=1000, full=False,
         logs = [(ctx.ln(i),str(i)) for i in ilogs] + logs
         r = ctx.pslq([ctx.ln(x)] + [a[0] for a in logs], tol, M)
         if r is not None and max(abs(uw) for uw in r) <= M and r[0]:
-            addsolution(prodstring(r, logs))
-            if not full: return solutions[0]
+            s = prodstring(r, logs)
+            if s:
+                addsolution(s)
+                if not full: return solutions[0]
 
     if full:
         return sorted(solutions, key=len)
